@@ -39,10 +39,11 @@ const (
 	opDeserialize
 	opStream
 	opEditOwn
+	opDeserializeDamaged
 	opKinds
 )
 
-var concOpNames = [...]string{"parse-small", "parse-large", "parseND", "traverse", "clone+edit", "serialize", "deserialize", "stream", "edit-in-place"}
+var concOpNames = [...]string{"parse-small", "parse-large", "parseND", "traverse", "clone+edit", "serialize", "deserialize", "stream", "edit-in-place", "deserialize-damaged"}
 
 // concWorker is the per-goroutine state; nothing in it is shared with other workers.
 type concWorker struct {
@@ -59,7 +60,7 @@ type concWorker struct {
 func drawProgram(c *Chooser, n int) []concOp {
 	ops := make([]concOp, n)
 	for i := range ops {
-		k := c.Pick("cop", 4, 2, 1, 3, 3, 6, 5, 1, 4)
+		k := c.Pick("cop", 4, 2, 1, 3, 3, 6, 5, 1, 4, 2)
 		ops[i] = concOp{kind: k, seed: c.U64("opseed"), mode: c.Intn("cmode", 4)}
 	}
 	// make sure there is something to work on first
@@ -222,6 +223,31 @@ func (w *concWorker) step(i int) uint64 {
 		w.obj = &simObj{pj: out, model: cloneRoots(w.blob.model), nd: w.blob.nd, copy: true, origin: what}
 		readBack(r, w.obj, bInto|bAdv, what, nil)
 		f.u64(tapeDigest(out))
+	case opDeserializeDamaged:
+		if w.blob == nil {
+			return f.h
+		}
+		// this worker's own blob with a damaged byte inside a block payload: an error (or any result) is fine for the
+		// worker itself - what matters is that nobody else is affected
+		bad := append([]byte(nil), w.blob.b...)
+		if fr, err := parseFraming(bad); err == nil {
+			sec := 1 + c.Intn("dsec", 3)
+			if fr.sec[sec].typeOff >= 0 && fr.sec[sec].payLen > 0 {
+				bad[fr.sec[sec].payOff+c.Intn("dpos", fr.sec[sec].payLen)] ^= byte(1 + c.Intn("dbit", 255))
+			} else {
+				bad[len(bad)-1] ^= 0x5a
+			}
+		} else {
+			bad[len(bad)-1] ^= 0x5a
+		}
+		var derr error
+		if err := safely(func() error { _, derr = simdjson.NewSerializer().Deserialize(bad, nil); return nil }); err != nil {
+			walkerFail(r, "panic", what, err)
+			return 0
+		}
+		if derr != nil {
+			f.u64(1)
+		}
 	case opStream:
 		var buf bytes.Buffer
 		n := 1 + c.Intn("lines", 6)
